@@ -18,7 +18,13 @@ def jobs(tier):
     out.append(dict(name='geometry_2x2x2', src='h_grid.cpp', defs={'DMAX': 8}, entry='h_geometry', tus=TUS, fp='real', loopmax=4000, maxsteps=3000000))
     out.append(dict(name='cellvol', src='h_grid.cpp', defs={'DMAX': 8}, entry='h_cellvol_box,h_cellvol_sheared,h_cellvol', tus=TUS[2:], fp='real', loopmax=4000, maxsteps=3000000, opts=['--qtimeout', '3000', '--qtimeout2', '3000'],
                     bounds='all 24 real corner coordinates; sign-branch feasibility left undecided by the solver is explored on both sides'))
+    out.append(dict(name='blockcentred_2x2x2', src='h_grid2.cpp', defs={'INACTIVE': 5}, entry='h_blockcentred', tus=TUS, fp='real', loopmax=4000, maxsteps=6000000,
+                    bounds='2x2x2 grid, DXV/DYV/DZV-type spacing with all positive real values, cells 0 and 5 inactive'))
+    out.append(dict(name='cellvol_mirrored', src='h_grid2.cpp', defs={}, entry='h_cellvol_mirrored', tus=TUS[2:], fp='real', loopmax=4000))
+    out.append(dict(name='egrid_index_3x2x2', src='h_grid2.cpp', defs={}, entry='h_egrid_index', tus=['opm/io/eclipse/EGrid.cpp'], fp='real', loopmax=4000, maxsteps=40000000, partial_sites=False,
+                    bounds='EGrid index maps on a 3x2x2 grid, ACTNUM symbolic in 3 cells, every cell'))
     if tier != 'quick':
+        out.append(dict(name='blockcentred_3x2x1', src='h_grid2.cpp', defs={'GNX': 3, 'GNY': 2, 'GNZ': 1, 'INACTIVE': 4}, entry='h_blockcentred', tus=TUS, fp='real', loopmax=4000, maxsteps=6000000))
         out.append(dict(name='actnum_3x2x2', src='h_grid.cpp', defs={'DMAX': 8, 'GNX': 3, 'GNY': 2, 'GNZ': 2}, entry='h_actnum', tus=TUS, fp='real', loopmax=4000, maxsteps=30000000))
         out.append(dict(name='geometry_3x2x1', src='h_grid.cpp', defs={'DMAX': 8, 'GNX': 3, 'GNY': 2, 'GNZ': 1}, entry='h_geometry', tus=TUS, fp='real', loopmax=4000, maxsteps=3000000))
     return out
